@@ -1688,7 +1688,11 @@ func (t *tScreen) parseRune(buf *bytes.Buffer, evs *[]Event) (bool, bool) {
 	utf := make([]byte, 12)
 	for l := 1; l <= len(b); l++ {
 		t.decoder.Reset()
-		nOut, nIn, e := t.decoder.Transform(utf, b[:l], true)
+		// Not at EOF: a prefix ending inside a multi-byte character
+		// has to come back as ErrShortSrc.  The legacy multi-byte
+		// decoders otherwise turn a lone lead byte into U+FFFD,
+		// and the character would be dropped.
+		nOut, nIn, e := t.decoder.Transform(utf, b[:l], false)
 		if e == transform.ErrShortSrc {
 			continue
 		}
